@@ -3,6 +3,7 @@ CONSTANTS
   Coords = {0, 2, 4}
   Dims = 1
   MaxBoxes = 3
+  WithThin = TRUE
   WithInf = TRUE
   WithNull = TRUE
   WithSemi = TRUE
